@@ -24,6 +24,9 @@ FIRST_MISSED = {
     'C12-m3': 'missed by the C12 check of round 1; caught after aggregates over Inventory columns of subquery/user tables, repeated execution and the input-mutated aliasing check were added',
     'C12-m4': 'missed by the C12 check of round 1; caught after several aggregates over different same-typed subquery columns in one query were added',
     'C13-m4': 'missed by the C13 check of round 1 (single-level statements); caught after nested IN / NOT IN subqueries with their own FROM qualifiers were added',
+    'C17-m4': 'a shell defect (stale numberify formatter across .reload): missed by the C17 and C19 checks of round 1; caught by the C19 check after sessions that rewrite the ledger file and .reload were added (the C17 check exercises numberify_results and run_query, not the shell)',
+    'C20-m3': 'missed by the C20 check of round 1 (driven runs executed pre-parsed statements; module scan skipped instances of foreign classes); caught after module-level instances were added to the shared-state inventory and a text-statement stress was added',
+    'C20-m4': 'missed by the C20 check of round 1 (ledger data not fingerprinted); caught after the ledger fingerprint and the any_meta-vs-meta driven scenarios were added',
     'C15-m3': 'missed by the C15 check of round 1 (no ORDER BY in pivot queries); caught after ORDER BY clauses before PIVOT BY were added to the generator',
     'C15-m2': 'missed by the first C15 check (only valid PIVOT BY references generated); caught after the invalid-reference stream was added (the C05 check also rejects it)',
 }
